@@ -38,7 +38,7 @@ def bounds(tier):
     }
 
 
-FACTORIES = ["coupling", "maf", "bnaf", "planar", "tri_spline", "coupling_rqs", "maf_rqs", "planar_tanh"]
+FACTORIES = ["coupling", "maf", "bnaf", "planar", "tri_spline", "coupling_rqs", "maf_rqs", "planar_tanh", "bnaf_d2"]
 
 
 def enumerate_cases(tier, seed):
@@ -86,6 +86,9 @@ def build_factory(name, invert, cond, seed, level, dim=2, layers=2, scale=0.5):
     elif name == "bnaf":
         d = flows.block_neural_autoregressive_flow(key, base_dist=base, cond_dim=cond, nn_depth=1, nn_block_dim=2,
                                                    flow_layers=layers, invert=invert)
+    elif name == "bnaf_d2":  # two hidden layers: the conditional term must enter the two copies of the layer loop identically
+        d = flows.block_neural_autoregressive_flow(key, base_dist=base, cond_dim=cond, nn_depth=2, nn_block_dim=2,
+                                                   flow_layers=1, invert=invert)
     elif name == "planar":
         d = flows.planar_flow(key, base_dist=base, cond_dim=cond, flow_layers=layers, invert=invert, negative_slope=0.1,
                               **({"width_size": 3, "depth": 1} if cond else {}))
@@ -106,7 +109,7 @@ def factory_info(name, invert, cond, dim=2):
     nf = ni = False
     if name == "planar_tanh":
         fwd, inv = (False, True) if invert else (True, False)
-    if name == "bnaf":
+    if name in ("bnaf", "bnaf_d2"):
         nf, ni = (True, False) if invert else (False, True)
     return Info((dim,), None if cond is None else (cond,), _full((dim,), "R"), _full((dim,), "R"), fwd, inv, nf, ni)
 
